@@ -9,12 +9,16 @@ hidden context state (next temporary id, next allocated id, patched environment)
 observable results.
 """
 import json
+import os
+import sys
 
+from simtz import core
 from simtz import replsim as rs
 from simtz.runner import rng_for
 
 ID = 'C22'
 QUICK_RUNS = 1800
+SHRINK_EXECS = 150
 QUICK_BUDGET_S = 90
 CHUNK = 25
 CHUNK_TIMEOUT_S = 600
@@ -39,8 +43,10 @@ ASSUMPTIONS = [
     'observed through a probe suffix executed by both sessions, never through private attributes.',
     'DEBUG mode is excluded (it deliberately re-raises without restoring); RESET "<network>" is excluded (needs a network).',
     'Lazy-diff update lists are compared as sets keyed by key_hash (their order depends on hash seeds).',
+    'The reference session runs in a child process forked before session A executes its first cell, so both sessions start from the same '
+    'process state and nothing a failing cell leaks into process-global state can reach the reference.',
 ]
-EXPECTED_PROBES = ['failed_after_reset', 'cell_failed_on_node_error', 'failed_after_exec_of_context_changing_lambda', 'run_failed_inside_contract_code', 'failed_after_origination_or_sapling_index', 'failed_after_registering_chain_big_map', 'failed_after_alloc_tmp_id', 'failed_after_context_patch', 'commit_after_failure_two_big_maps', 'fault_injected_exit', 'fault_injected_entry',
+EXPECTED_PROBES = ['failed_deep_inside_recursive_lambda', 'failed_after_reset', 'cell_failed_on_node_error', 'failed_after_exec_of_context_changing_lambda', 'run_failed_inside_contract_code', 'failed_after_origination_or_sapling_index', 'failed_after_registering_chain_big_map', 'failed_after_alloc_tmp_id', 'failed_after_context_patch', 'commit_after_failure_two_big_maps', 'fault_injected_exit', 'fault_injected_entry',
                    'failure_inside_nested_block', 'failed_run_after_clear', 'failed_begin', 'failed_commit']
 
 KV = 'int string'
@@ -67,6 +73,13 @@ URI = 'http://node0.sim:8732'
 CODE = 'code { CDR ; NIL operation ; PAIR }'
 # code that fails when the parameter is True, after BEGIN/RUN attached (and numbered) the storage big_maps
 COND_CODE = 'code { UNPAIR ; IF { EMPTY_BIG_MAP int string ; PUSH string "boom" ; PAIR ; FAILWITH } { NIL operation ; PAIR } }'
+def rec_cell(depth, bottom):
+    """Counts 0..depth through a recursive lambda and runs `bottom` at the deepest level (pytezos pushes the lambda itself on
+    top of the argument)."""
+    return ('PUSH int 0 ; LAMBDA_REC int int { SWAP ; DUP ; PUSH int %d ; IFCMPEQ { %s } { PUSH int 1 ; ADD ; EXEC } } ; SWAP ; EXEC'
+            % (depth, bottom))
+
+
 FAIL_TAILS = {
     'failwith': ['UNIT', 'FAILWITH'],
     'illtyped_add': ['PUSH int 1', 'PUSH string "x"', 'ADD'],
@@ -81,6 +94,14 @@ FAIL_TAILS = {
     'in_map': ['PUSH (list int) { 1 ; 2 ; 3 }', 'MAP { PUSH int 2 ; COMPARE ; EQ ; IF { UNIT ; FAILWITH } { EMPTY_BIG_MAP int string ; DROP ; PUSH int 0 } }'],
     'in_dip2': ['PUSH int 0', 'PUSH int 1', 'DIP 2 { EMPTY_BIG_MAP int string ; UNIT ; FAILWITH }'],
     'dig_short': ['DIG 7'],
+    # primitives the interpreter does not implement: the cell fails after whatever it did before
+    'unsupported_open_chest': ['EMPTY_BIG_MAP int string', 'DROP', 'PUSH int 100', 'OPEN_CHEST'],
+    'unsupported_sapling_verify': ['PATCH AMOUNT 5', 'SAPLING_EMPTY_STATE 8', 'SAPLING_VERIFY_UPDATE'],
+    'push_never': ['PATCH NOW 77', 'PUSH never 1'],
+    # failures many lambda bodies deep
+    'deep_rec_fail': [rec_cell(180, 'PUSH string "boom" ; FAILWITH')],
+    'deep_rec_illtyped': [rec_cell(150, 'PUSH string "x" ; ADD')],
+    'rec_too_deep': [rec_cell(300, 'SWAP ; DROP')],
     # RESET detaches the session from its node (or attaches another one) before the cell fails
     'reset_then_fail': ['RESET', 'UNIT', 'FAILWITH'],
     'reset_net_then_fail': ['RESET "sandbox"', 'UNIT', 'FAILWITH'],
@@ -121,6 +142,7 @@ NEUTRAL = [
 ]
 
 
+
 # groups of consecutive cells that are stack-neutral as a whole: a lambda whose body changes the context (temporary big_map id,
 # origination index, sapling index) is pushed by one cell, executed by later cells that do not name those primitives, then dropped
 NEUTRAL_GROUPS = [
@@ -129,6 +151,8 @@ NEUTRAL_GROUPS = [
      ['DUP', 'UNIT', 'EXEC', 'DROP'], ['DROP']],
     [['LAMBDA unit unit { DROP ; SAPLING_EMPTY_STATE 8 ; DROP ; UNIT }'], ['PUSH int 5', 'DIP { DUP ; UNIT ; EXEC ; DROP }', 'DROP'], ['DROP']],
     [['PUSH int 1', 'PUSH int 2'], ['DIG 1', 'DROP'], ['DROP']],
+    # legal deep recursions (the interpreter limits the depth to 256): they must still work after a failure deep inside one
+    [[rec_cell(60, 'SWAP ; DROP')], ['DROP'], [rec_cell(110, 'SWAP ; DROP'), 'DROP']],
 ]
 
 
@@ -297,6 +321,8 @@ PROBE = [
     'DROP',
     'DUMP',
     'DROP_ALL',
+    rec_cell(110, 'SWAP ; DROP'),
+    'DROP_ALL',
     'AMOUNT',
     'NOW',
     'SENDER',
@@ -320,42 +346,193 @@ def cell_text(instrs):
     return ' ; '.join(instrs)
 
 
+class _World:
+    """Simulated node + transport + seams for one session run (each process builds its own)."""
+
+    def __init__(self):
+        from pytezos.rpc.node import RpcNode
+        from pytezos.rpc.shell import ShellQuery
+
+        from simtz import c15
+        from simtz import nodesim
+
+        rs.install_fault_points()
+        self.sim = sim = core.Sim()
+        self.node = node = nodesim.SimNode(sim, {})
+        node.bake(2)
+        for bm, content in CHAIN_BIG_MAPS.items():
+            node.big_maps[bm] = {c15.key_hash('int', k): {'string': v} for k, v in content.items()}
+        node.contracts['KT1BEqzn5Wx8uJrZNvuS9DVHmLvG9td3fDLi'] = {'code': [], 'storage': {'prim': 'Unit'}}  # the REPL's default self address (BALANCE)
+        self.tr = tr = core.Transport(sim, node.handle, max_requests=5000)
+        self.cellf = cellf = {'first': 0, 'fault': None}
+
+        def fault_for(req):
+            f = cellf['fault']
+            if f and req['i'] - cellf['first'] == f['at']:
+                cellf['fault'] = None
+                return {'perm': {'f': 'reject', 'how': 'perm'}, 'exc': {'f': 'reject', 'how': 'exc'}, 'cap': {'f': 'transient', 'n': 6, 'status': 503}}[f['how']]
+            return None
+
+        tr.fault_for = fault_for
+        self.make_shell = lambda: ShellQuery(RpcNode(URI))
+        self.seams = core.Seams(sim, tr)
+
+    def run(self, interp, st, fault=None):
+        """One cell with its scheduled node fault armed; returns (result, executed count, fired, rpc fault fired)."""
+        self.cellf['first'], self.cellf['fault'] = self.tr.attempts, (dict(st['rpc_fault']) if st.get('rpc_fault') else None)
+        res, count, fired = rs.run_cell(interp, cell_text(st['instrs']), fault)
+        rpc_fired = bool(st.get('rpc_fault')) and self.cellf['fault'] is None
+        self.cellf['fault'] = None
+        return res, count, fired, rpc_fired
+
+
 def execute(scn, want_log=False):
     from pytezos.michelson.repl import Interpreter
-    from pytezos.rpc.node import RpcNode
-    from pytezos.rpc.shell import ShellQuery
 
-    from simtz import c15
-    from simtz import core
-    from simtz import nodesim
-
-    rs.install_fault_points()
-    sim = core.Sim()
-    node = nodesim.SimNode(sim, {})
-    node.bake(2)
-    for bm, content in CHAIN_BIG_MAPS.items():
-        node.big_maps[bm] = {c15.key_hash('int', k): {'string': v} for k, v in content.items()}
-    node.contracts['KT1BEqzn5Wx8uJrZNvuS9DVHmLvG9td3fDLi'] = {'code': [], 'storage': {'prim': 'Unit'}}  # the REPL's default self address (BALANCE)
-    tr = core.Transport(sim, node.handle, max_requests=5000)
-    cellf = {'first': 0, 'fault': None}
-
-    def fault_for(req):
-        f = cellf['fault']
-        if f and req['i'] - cellf['first'] == f['at']:
-            cellf['fault'] = None
-            return {'perm': {'f': 'reject', 'how': 'perm'}, 'exc': {'f': 'reject', 'how': 'exc'}, 'cap': {'f': 'transient', 'n': 6, 'status': 503}}[f['how']]
-        return None
-
-    tr.fault_for = fault_for
-    scn = dict(scn, _tr=tr, _cellf=cellf)
-    seams = core.Seams(sim, tr).install()
+    ref = _reference_process()  # forked before this process has executed any cell of this scenario
+    w = _World()
+    w.seams.install()
     try:
-        return _execute(scn, want_log, Interpreter, lambda: ShellQuery(RpcNode(URI)), sim, node)
+        return _execute(scn, want_log, Interpreter, w, ref)
     finally:
-        seams.uninstall()
+        w.seams.uninstall()
 
 
-def _execute(scn, want_log, Interpreter, make_shell, sim, node):
+# ---------------------------------------------------------------------------------
+# the reference session lives in a sibling process
+# ---------------------------------------------------------------------------------
+_REF = {'owner': None, 'pid': None, 'w': None, 'r': None}
+
+
+def _read_exact(fd, n):
+    chunks = []
+    while n:
+        buf = os.read(fd, min(n, 1 << 16))
+        if not buf:
+            return None
+        chunks.append(buf)
+        n -= len(buf)
+    return b''.join(chunks)
+
+
+def _send(fd, obj):
+    data = json.dumps(obj, default=str).encode()
+    data = len(data).to_bytes(8, 'big') + data
+    while data:
+        n = os.write(fd, data)
+        data = data[n:]
+
+
+def _recv(fd):
+    head = _read_exact(fd, 8)
+    if head is None:
+        return None
+    body = _read_exact(fd, int.from_bytes(head, 'big'))
+    return None if body is None else json.loads(body.decode())
+
+
+def _reference_process():
+    """The process that runs the reference sessions (session B: the same cells without the failing ones).
+
+    It is forked from this process the first time a scenario is executed here, before any cell has run, and it never runs a
+    failing cell.  Whatever a failing cell of session A leaks into process-global state (class attributes, module-level
+    caches, the interpreter class itself) therefore cannot reach the reference, while both sides accumulate the same
+    history of *successful* cells from scenario to scenario."""
+    me = os.getpid()
+    if _REF['owner'] == me and _REF['pid'] is not None:
+        return _REF
+    if _REF['owner'] is not None and _REF['owner'] != me:
+        for k in ('w', 'r'):  # handles inherited from the process we were forked from
+            try:
+                os.close(_REF[k])
+            except OSError:
+                pass
+    r_cmd, w_cmd = os.pipe()
+    r_res, w_res = os.pipe()
+    sys.stdout.flush()
+    sys.stderr.flush()
+    pid = os.fork()
+    if pid == 0:
+        try:
+            keep = {0, 1, 2, r_cmd, w_res}
+            for name in os.listdir('/proc/self/fd'):
+                fd = int(name)
+                if fd not in keep:
+                    try:
+                        os.close(fd)
+                    except OSError:
+                        pass
+            _reference_main(r_cmd, w_res)
+        finally:
+            os._exit(0)
+    os.close(r_cmd)
+    os.close(w_res)
+    _REF.update(owner=me, pid=pid, w=w_cmd, r=r_res)
+    return _REF
+
+
+def _reference_main(r_cmd, w_res):
+    import signal
+    import traceback
+
+    from pytezos.michelson.repl import Interpreter
+
+    # (the owner's faulthandler watchdog thread does not exist here and its locks must not be touched: SIGALRM bounds a request)
+    signal.signal(signal.SIGALRM, signal.SIG_DFL)
+    while True:
+        req = _recv(r_cmd)
+        if req is None:
+            return  # the owner is gone
+        signal.alarm(600)
+        try:
+            out = _reference_session(req['scn'], req['cells'], Interpreter)
+        except BaseException as e:  # noqa: BLE001
+            out = {'child_error': ''.join(traceback.format_exception(type(e), e, e.__traceback__))[-2000:]}
+        signal.alarm(0)
+        _send(w_res, out)
+
+
+def _reference_session(scn, cells, Interpreter):
+    w = _World()
+    w.seams.install()
+    try:
+        b = Interpreter()
+        b.context.shell = w.make_shell()
+        renders = {}
+        for i in cells:
+            st = scn['steps'][i]
+            plan = st.get('plan') or {}
+            fault = {'ordinal': plan['ordinal'], 'when': plan['when']} if plan.get('mode') == 'inject' else None
+            res_b = w.run(b, st, fault)[0]
+            renders[str(i)] = rs.render_result(res_b)
+        probes = [rs.render_result(rs.run_cell(b, text)[0]) for text in PROBE]
+        return {'cells': renders, 'probes': probes, 'unmodelled': dict(w.node.unmodelled)}
+    finally:
+        w.seams.uninstall()
+
+
+def _ask_reference(ref, scn, cells):
+    try:
+        _send(ref['w'], {'scn': {'shape': scn['shape'], 'steps': scn['steps']}, 'cells': cells})
+        out = _recv(ref['r'])
+    except OSError as e:
+        out = None
+        err = repr(e)
+    else:
+        err = 'pipe closed'
+    if out is None:
+        try:
+            os.waitpid(ref['pid'], os.WNOHANG)
+        except OSError:
+            pass
+        _REF.update(owner=None, pid=None)
+        raise core.HarnessError('reference session process died: ' + err)
+    if 'child_error' in out:
+        raise core.HarnessError('reference session process failed: ' + out['child_error'])
+    return out
+
+
+def _execute(scn, want_log, Interpreter, w, ref):
     log = []
     violations = []
     probes = {}
@@ -365,25 +542,22 @@ def _execute(scn, want_log, Interpreter, make_shell, sim, node):
     def bump(d, k):
         d[k] = d.get(k, 0) + 1
 
+    sim, node = w.sim, w.node
     a = Interpreter()
-    b = Interpreter()
-    a.context.shell = make_shell()
-    b.context.shell = make_shell()
+    a.context.shell = w.make_shell()
     failed_any = False
+    last_fail_at = {}
     last_fail = None
-    compared = 0
     failed_in_round = False
+    renders_a = {}
+    succeeded = []
     for i, st in enumerate(scn['steps']):
         text = cell_text(st['instrs'])
         plan = st.get('plan') or {}
         fault = {'ordinal': plan['ordinal'], 'when': plan['when']} if plan.get('mode') == 'inject' else None
         depth_before = len(a.stack.items)
         bms_before = sum(1 for x in a.stack.items if 'big_map' in json.dumps(rs.render_item(x).get('type')))
-        tr, cellf = scn['_tr'], scn['_cellf']
-        cellf['first'], cellf['fault'] = tr.attempts, (dict(st['rpc_fault']) if st.get('rpc_fault') else None)
-        res_a, count, fired = rs.run_cell(a, text, fault)
-        rpc_fired = bool(st.get('rpc_fault')) and cellf['fault'] is None
-        cellf['fault'] = None
+        res_a, count, fired, rpc_fired = w.run(a, st, fault)
         ra = rs.render_result(res_a)
         log.append({'i': i, 'cell': text, 'plan': plan or None, 'a_error': ra['error'], 'executed': count, 'fired': fired})
         if res_a.error is not None:
@@ -404,6 +578,8 @@ def _execute(scn, want_log, Interpreter, make_shell, sim, node):
                 bump(probes, 'failed_after_context_patch')
             if 'EXEC' in text and 'LAMBDA' not in text:
                 bump(probes, 'failed_after_exec_of_context_changing_lambda')
+            if 'LAMBDA_REC' in text:
+                bump(probes, 'failed_deep_inside_recursive_lambda')
             if 'RESET' in text:
                 bump(probes, 'failed_after_reset')
             if 'CREATE_CONTRACT' in text or 'SAPLING_EMPTY_STATE' in text:
@@ -423,30 +599,42 @@ def _execute(scn, want_log, Interpreter, make_shell, sim, node):
             pos = 'k0' if plan.get('k') == 0 else ('end' if plan.get('k') == len(st['instrs']) else 'mid')
             states.add(f'd{min(depth_before, 3)}/bm{min(bms_before, 3)}/{scn["shape"]}/{pos}/{last_fail}/{plan.get("tail", "-")}')
             continue
-        # common cell: run in B with the same (non-firing or absent) fault directives
-        cellf['first'], cellf['fault'] = tr.attempts, (dict(st['rpc_fault']) if st.get('rpc_fault') else None)
-        res_b, _, _ = rs.run_cell(b, text, fault)
-        cellf['fault'] = None
-        rb = rs.render_result(res_b)
-        if failed_any:
-            compared += 1
+        succeeded.append(i)
+        renders_a[i] = ra
+        last_fail_at[i] = last_fail
         if 'COMMIT' in text and failed_in_round:
             if json.dumps(ra['instr']).count('"action"') >= 2:
                 bump(probes, 'commit_after_failure_two_big_maps')
             failed_in_round = False
+    probes_a = []
+    for text in PROBE:
+        res_a, _, _ = rs.run_cell(a, text)
+        probes_a.append(rs.render_result(res_a))
+
+    # hand the list of surviving cells to the reference session and collect what it observed
+    ref = _ask_reference(ref, scn, succeeded)
+
+    compared = 0
+    first_failed_index = next((e['i'] for e in log if e.get('a_error')), None)
+    for i in succeeded:
+        ra, rb = renders_a[i], json.loads(json.dumps(ref['cells'][str(i)]))
+        ra = json.loads(json.dumps(ra, default=str))
+        if first_failed_index is not None and i > first_failed_index:
+            compared += 1
         if ra != rb:
             d = rs.first_diff(ra, rb)
             field = d[0].split('/')[1] if d and d[0] else '?'
             sub = 'lazy_diff' if d and 'lazy_diff' in d[0] else ('result' if d and '/result' in d[0] else field)
-            violations.append({'kind': 'diverge', 'sig': f'C22/diverge:cell:{sub}:after={last_fail}',
-                               'detail': {'cell_index': i, 'cell': text, 'path': d[0] if d else None, 'with_failures': d[1] if d else None, 'without': d[2] if d else None}})
-            log[-1]['diverged'] = True
+            violations.append({'kind': 'diverge', 'sig': f'C22/diverge:cell:{sub}:after={last_fail_at[i]}',
+                               'detail': {'cell_index': i, 'cell': cell_text(scn['steps'][i]['instrs']), 'path': d[0] if d else None,
+                                          'with_failures': d[1] if d else None, 'without': d[2] if d else None}})
+            for e in log:
+                if e.get('i') == i:
+                    e['diverged'] = True
             break
     if not violations:
         for pi, text in enumerate(PROBE):
-            res_a, _, _ = rs.run_cell(a, text)
-            res_b, _, _ = rs.run_cell(b, text)
-            ra, rb = rs.render_result(res_a), rs.render_result(res_b)
+            ra, rb = json.loads(json.dumps(probes_a[pi], default=str)), ref['probes'][pi]
             log.append({'probe': pi, 'cell': text, 'a_error': ra['error'], 'b_error': rb['error'], 'a_stdout': ra['stdout'][-2:]})
             if failed_any:
                 compared += 1
